@@ -92,7 +92,7 @@ def attr_const_text(v) -> str:
     raise Unmodelled(f"attribute value {v!r}")
 
 
-OPSET_ALIASES = {"op": 18, "opset17": 17, "opset18": 18, "opset19": 19, "opset20": 20, "opset21": 21}
+OPSET_ALIASES = {"op": 18, "opset11": 11, "opset12": 12, "opset13": 13, "opset17": 17, "opset18": 18, "opset19": 19, "opset20": 20, "opset21": 21}
 DEFAULT_OPSET_VERSION = 18
 
 
@@ -281,11 +281,25 @@ class Encoder:
                   sx("body", *self.block(fn.body)))
 
 
-def encode_function(src: str, functions: dict | None = None) -> str:
-    """`src` = source of one decorated function (decorator lines allowed)."""
+def _env_lit(kind: str, v) -> str:
+    if kind == "float":
+        return sx("flt", f32repr(v))
+    if kind == "int":
+        return sx("int", str(int(v)))
+    raise Unmodelled(f"closure / global value of kind {kind}")
+
+
+def encode_function(src: str, functions: dict | None = None, env=None) -> str:
+    """`src` = source of one decorated function (decorator lines allowed).  `env` = (closure, globals): lists of
+    (name, kind, value) the function may read from its surroundings; the Lean side resolves the lookup order."""
     tree = ast.parse(src)
     fn = next(n for n in tree.body if isinstance(n, ast.FunctionDef))
-    return Encoder(functions=functions).function(fn)
+    f = Encoder(functions=functions).function(fn)
+    if env is None:
+        return f
+    closure, globs = env
+    return sx("withenv", sx("closure", *[sx(n, _env_lit(k, v)) for n, k, v in closure]),
+              sx("globals", *[sx(n, _env_lit(k, v)) for n, k, v in globs]), f)
 
 
 # --------------------------------------------------------------------------- protos -> neutral
